@@ -367,6 +367,34 @@ pub fn c32_from_str_six_letters() {
   assert!(got == Ok(Rune(b26_value(&raw).unwrap())), "C32.from_str.value_is_modified_base26");
 }
 
+/// names and integers correspond one-to-one only if NOTHING but the letters A..Z is accepted: a
+/// two-character string "<letter><c>" with c ranging over every Unicode scalar value parses iff c is
+/// an ASCII capital letter, and then to the base-26 value; any other character is
+/// Error::Character(c) (strengthened after sub-agent seed C32-2: validation after narrowing the
+/// char to u8 accepted U+0141, U+0441, ...).
+//# props: C32, C31
+//# kind: bounded(two-character strings: one symbolic letter followed by one symbolic char over all of Unicode)
+//# fns: Rune::from_str
+//# tier: thorough
+//# timeout: 600
+#[cfg_attr(kani, kani::proof)]
+#[cfg_attr(kani, kani::unwind(8))]
+pub fn c32_from_str_rejects_non_letters() {
+  let a: u8 = kani::any();
+  kani::assume(a >= b'A' && a <= b'Z');
+  let c: char = kani::any();
+  let mut s = String::with_capacity(8);
+  s.push(a as char);
+  s.push(c);
+  let got = Rune::from_str(&s);
+  if c >= 'A' && c <= 'Z' {
+    assert!(got == Ok(Rune(b26_value(&[a, c as u8]).unwrap())), "C32.from_str.value_is_modified_base26");
+  } else {
+    assert!(got == Err(Error::Character(c)), "C32.from_str.only_ascii_capitals_are_letters");
+  }
+  kani::cover!(c as u32 == 0x141, "U+0141 (code point mod 256 is 'A')");
+}
+
 /// the range boundary: 28-letter names around u128::MAX's name, last two letters symbolic.
 /// "BCGDENLQRQWDSLRUGSNLBTMFIJAV" is u128::MAX; anything above is Error::Range, never a wrapped value.
 //# props: C32, C31
